@@ -254,7 +254,17 @@ func (ws *wstate) runTable(tbl []entry, paths []int, l *core.Local, sampleIt boo
 					a.outcome(o.status, len(o.trace), ovObs)
 					ok := ws.judge(app, ci, ctxKind, tbl, mi, pi, ref, &o)
 					if sampleIt && ok && ci == 5 && ctxKind == 1 && mi == 0 && ref.n >= 2 && ov != 0 {
-						l.Sample(map[string]any{"case": caseOf(tbl, ci, ctxKind, mi, pi), "observed": obsOf(&o, tbl), "expected": expOf(ref, tbl)})
+						// keep the 6 candidates with the smallest mixed key: the union over all workers then contains
+						// the global 6 smallest whatever the scheduling was
+						sk := orderKey(tbl, ci, ctxKind, mi, pi) * 0x9E3779B97F4A7C15
+						if len(a.samples) < 6 || sk < a.samples[len(a.samples)-1].key {
+							a.samples = append(a.samples, sampleRec{sk,
+								map[string]any{"case": caseOf(tbl, ci, ctxKind, mi, pi), "observed": obsOf(&o, tbl), "expected": expOf(ref, tbl)}})
+							sort.Slice(a.samples, func(i, j int) bool { return a.samples[i].key < a.samples[j].key })
+							if len(a.samples) > 6 {
+								a.samples = a.samples[:6]
+							}
+						}
 					}
 				}
 			}
@@ -387,7 +397,13 @@ type vrec struct {
 	cs, o, e any
 }
 
+type sampleRec struct {
+	key uint64
+	v   any
+}
+
 type acc struct {
+	samples                                                   []sampleRec
 	apps, evals, nontrivial, bucketed, overrides, unspecified int64
 	outc                                                      [5][6][4]int64
 	viol                                                      map[string]*vrec
@@ -471,7 +487,11 @@ func pathIdx(sel []string) []int {
 
 func main() {
 	r := core.Start("C01")
-	debug.SetGCPercent(1600) // millions of short-lived apps, tiny live heap: collect less often
+	// Millions of short-lived apps. Every app owns a sync.Pool, and the runtime keeps pools (hence apps) reachable
+	// until the second GC after their last use, so a proportional GC target (GOGC) would chase its own garbage:
+	// collect on a fixed heap budget instead.
+	debug.SetGCPercent(-1)
+	debug.SetMemoryLimit(2 << 30)
 	buildTables()
 	selfCheck()
 
@@ -504,6 +524,7 @@ func main() {
 		_ = pprof.StartCPUProfile(f)
 		if len(items) > 40 {
 			items = items[:40]
+			r.Cap("developer profile run: truncated to 40 work items")
 		}
 	}
 	var mu sync.Mutex
@@ -544,6 +565,7 @@ func main() {
 		tot.bucketed += a.bucketed
 		tot.overrides += a.overrides
 		tot.unspecified += a.unspecified
+		tot.samples = append(tot.samples, a.samples...)
 		for s := range a.outc {
 			for n := range a.outc[s] {
 				for o := range a.outc[s][n] {
@@ -595,6 +617,13 @@ func main() {
 		core.Fatal("vacuous: no request ever selected a bucket other than the global one")
 	}
 
+	// samples: conforming executions with at least two handlers and an effective override (6 smallest mixed keys)
+	sort.Slice(tot.samples, func(i, j int) bool { return tot.samples[i].key < tot.samples[j].key })
+	var samples []any
+	for i := 0; i < len(tot.samples) && len(samples) < 6; i++ {
+		samples = append(samples, tot.samples[i].v)
+	}
+
 	bounds := map[string]any{
 		"max_entries_full_alphabet": 2,
 		"entries_full_alphabet":     len(full),
@@ -624,6 +653,7 @@ func main() {
 			"distinct_nontrivial": tot.nontrivial,
 			"rule":                rule,
 			"bounds":              bounds,
+			"samples":             samples,
 		},
 		Assumptions: []string{
 			"matching semantics are not judged (C02/C03): 'route i handles (method, path)' is the answer of the real Route.match on the route object(s) that the same registration creates when it is the ONLY registration of an app with the same config",
